@@ -55,6 +55,9 @@ def check_ctor(case):
     if reject:
         return out.bad("C10/constructor-accepts-invalid-arguments", "ThreadPool(%r, %r, queue_size=%r) was accepted" % case)
     want_min = min(max(imn, 0), imx)
+    if not hasattr(pool, "_max_threads") or not hasattr(pool, "_min_threads") or not hasattr(getattr(pool, "_queue", None), "maxsize"):
+        out.cls = "accepted-unobservable"  # the documented attributes are gone: nothing to compare (the schedule legs still bound the behaviour)
+        return out
     if pool._max_threads != imx or pool._min_threads != want_min:
         out.bad("C10/constructor-clamping", "ThreadPool(%r, %r) -> max=%r min=%r, expected max=%d min=%d" % (mx, mn, pool._max_threads, pool._min_threads, imx, want_min))
     bounded = iqs is not None and iqs > 0
